@@ -4,6 +4,7 @@
   Part 1: the session's end handshake (`Amqp.SessLife`), for every sequence of events.
   Part 2: the link's detach handshake (`Amqp.LinkLife`).
 -/
+import Amqp.DetachHold
 import Amqp.SessLife
 import Amqp.LinkLife
 
@@ -267,3 +268,217 @@ theorem at_most_one_detach (req : Req) (pending : Option PeerDetach) (answer : P
   | some p => cases p with | mk c e => cases answer with | mk c2 e2 => cases c <;> cases e <;> cases c2 <;> cases e2 <;> decide
 
 end Amqp.LinkLife
+
+/-! ## a detach does not overtake the transfers the peer's window holds back -/
+
+namespace Amqp.DetachHold
+
+theorem source_detach_waits : detachWaits = true ∧ drainInOrder = true := by decide
+
+/-- the drain sends a front part of what is held, in order; what it leaves begins with a transfer
+    and then the window is closed -/
+theorem drain_spec : ∀ (buf : List Item) (riw : Nat),
+    (drain riw buf).2.2 ++ (drain riw buf).2.1 = buf ∧
+    (0 < (drain riw buf).1 → (drain riw buf).2.1 = [])
+  | [], riw => by simp [drain]
+  | .xfer l u :: rest, riw => by
+    by_cases h : 0 < riw
+    · have ih := drain_spec rest (riw - 1)
+      simp only [drain, h, if_true]
+      exact ⟨by simp [ih.1], ih.2⟩
+    · simp only [drain, h, if_false]
+      exact ⟨by simp, fun hp => by exfalso; simp_all⟩
+  | .detach l :: rest, riw => by
+    have ih := drain_spec rest riw
+    simp only [drain]
+    exact ⟨by simp [ih.1], ih.2⟩
+
+theorem ofLink_append (l : Nat) (a b : List Item) : ofLink l (a ++ b) = ofLink l a ++ ofLink l b := by
+  simp [ofLink, List.filter_append]
+
+theorem holds_false_ofLink (buf : List Item) (l : Nat) (h : holdsXferOf buf l = false)
+    (hd : Item.detach l ∉ buf) : ofLink l buf = [] := by
+  simp only [ofLink, List.filter_eq_nil_iff]
+  intro i hi hl
+  cases i with
+  | xfer l' u =>
+    simp only [holdsXferOf, List.any_eq_false] at h
+    have := h _ hi
+    simp only [Item.link, beq_iff_eq] at hl
+    simp [hl] at this
+  | detach l' =>
+    simp only [Item.link, beq_iff_eq] at hl
+    subst hl; exact hd hi
+
+def opItems : Op → List Item
+  | .hand i => [i]
+  | .window _ => []
+
+theorem P_push (l : Nat) (wire buf past : List Item) (x : Item)
+    (h : ofLink l wire ++ ofLink l buf = ofLink l past) :
+    ofLink l wire ++ ofLink l (buf ++ [x]) = ofLink l (past ++ [x]) := by
+  rw [ofLink_append, ofLink_append, ← List.append_assoc, h]
+
+theorem P_emit (l : Nat) (wire past : List Item) (x : Item)
+    (h : ofLink l wire ++ ofLink l [] = ofLink l past) :
+    ofLink l (wire ++ [x]) ++ ofLink l [] = ofLink l (past ++ [x]) := by
+  have h' : ofLink l wire = ofLink l past := by simpa [ofLink] using h
+  rw [ofLink_append, ofLink_append, h']
+  simp [ofLink]
+
+theorem P_move (l : Nat) (wire buf past out buf' : List Item) (hm : out ++ buf' = buf)
+    (h : ofLink l wire ++ ofLink l buf = ofLink l past) :
+    ofLink l (wire ++ out) ++ ofLink l buf' = ofLink l past := by
+  rw [ofLink_append, List.append_assoc, ← ofLink_append, hm]; exact h
+
+/-- one step: per link, what is on the wire followed by what is held is what was handed over -/
+theorem step_fifo (s : St) (op : Op) (wire past : List Item)
+    (hinv : ∀ l, ofLink l wire ++ ofLink l s.buf = ofLink l past)
+    (hsub : ∀ i ∈ s.buf, i ∈ past)
+    (hnew : ∀ l, op = .hand (.detach l) → Item.detach l ∉ past) :
+    (∀ l, ofLink l (wire ++ (step s op).2) ++ ofLink l (step s op).1.buf = ofLink l (past ++ opItems op)) ∧
+    (∀ i ∈ (step s op).1.buf, i ∈ past ++ opItems op) := by
+  cases op with
+  | window n =>
+    simp only [step, opItems, List.append_nil]
+    by_cases hc : 0 < n ∧ (!s.buf.isEmpty) = true
+    · simp only [hc, and_self, if_true]
+      have hd := (drain_spec s.buf n).1
+      exact ⟨fun l => P_move l wire s.buf past _ _ hd (hinv l),
+        fun i hi => hsub i (by rw [← hd]; exact List.mem_append_right _ hi)⟩
+    · simp only [hc, if_false]
+      exact ⟨by simpa using hinv, hsub⟩
+  | hand it =>
+    cases it with
+    | xfer l u =>
+      simp only [step, opItems]
+      by_cases h0 : s.riw = 0
+      · simp only [h0, if_true, List.append_nil]
+        refine ⟨fun l' => P_push l' wire s.buf past _ (hinv l'), ?_⟩
+        intro i hi
+        rcases List.mem_append.mp hi with hi | hi
+        · exact List.mem_append_left _ (hsub i hi)
+        · exact List.mem_append_right _ hi
+      · simp only [h0, if_false]
+        by_cases he : s.buf.isEmpty = true
+        · simp only [he, if_true]
+          have hb : s.buf = [] := by simpa using he
+          refine ⟨fun l' => ?_, ?_⟩
+          · have := hinv l'
+            rw [hb] at this ⊢
+            exact P_emit l' wire past _ this
+          · intro i hi; rw [hb] at hi; simp at hi
+        · simp only [he, Bool.false_eq_true, if_false]
+          have hd := drain_spec s.buf s.riw
+          by_cases hr : 0 < (drain s.riw s.buf).1
+          · simp only [hr, if_true]
+            have hemp := hd.2 hr
+            refine ⟨fun l' => ?_, ?_⟩
+            · have h1 := P_move l' wire s.buf past _ _ hd.1 (hinv l')
+              rw [hemp] at h1 ⊢
+              have := P_emit l' (wire ++ (drain s.riw s.buf).2.2) past (Item.xfer l u) h1
+              rw [List.append_assoc] at this
+              exact this
+            · intro i hi; rw [hemp] at hi; simp at hi
+          · simp only [hr, if_false]
+            refine ⟨fun l' => ?_, ?_⟩
+            · have h1 := P_move l' wire s.buf past _ _ hd.1 (hinv l')
+              exact P_push l' _ _ past _ h1
+            · intro i hi
+              rcases List.mem_append.mp hi with hi | hi
+              · exact List.mem_append_left _ (hsub i (by rw [← hd.1]; exact List.mem_append_right _ hi))
+              · exact List.mem_append_right _ hi
+    | detach l =>
+      simp only [step, opItems, source_detach_waits.1, Bool.true_and]
+      by_cases hh : holdsXferOf s.buf l = true
+      · simp only [hh, if_true, List.append_nil]
+        refine ⟨fun l' => P_push l' wire s.buf past _ (hinv l'), ?_⟩
+        intro i hi
+        rcases List.mem_append.mp hi with hi | hi
+        · exact List.mem_append_left _ (hsub i hi)
+        · exact List.mem_append_right _ hi
+      · simp only [hh, Bool.false_eq_true, if_false]
+        have hnd : Item.detach l ∉ s.buf := fun hm => hnew l rfl (hsub _ hm)
+        have hnone := holds_false_ofLink s.buf l (by simpa using hh) hnd
+        refine ⟨fun l' => ?_, fun i hi => List.mem_append_left _ (hsub i hi)⟩
+        by_cases hl : l' = l
+        · subst hl
+          have := hinv l'
+          rw [hnone, List.append_nil] at this
+          rw [hnone, List.append_nil, ofLink_append, ofLink_append, this]
+        · have hne : ofLink l' [Item.detach l] = [] := by
+            simp [ofLink, Item.link]; exact fun e => hl e.symm
+          rw [ofLink_append, ofLink_append, hne, List.append_nil, List.append_nil, hinv l']
+
+/-- nothing of a link is handed over after its detach -/
+def DetachIsLast (items : List Item) : Prop :=
+  ∀ pre l post, items = pre ++ Item.detach l :: post → ∀ i ∈ post, i.link ≠ l
+
+theorem handed_cons (op : Op) (ops : List Op) : handed (op :: ops) = opItems op ++ handed ops := by
+  cases op <;> rfl
+
+theorem run_fifo : ∀ (ops : List Op) (s : St) (wire past : List Item),
+    (∀ l, ofLink l wire ++ ofLink l s.buf = ofLink l past) → (∀ i ∈ s.buf, i ∈ past) →
+    DetachIsLast (past ++ handed ops) →
+    ∀ l, ofLink l (wire ++ (run s ops).2) ++ ofLink l (run s ops).1.buf = ofLink l (past ++ handed ops)
+  | [], s, wire, past, hinv, _, _ => by simpa [run, handed] using hinv
+  | op :: ops, s, wire, past, hinv, hsub, hwf => by
+    have hnew : ∀ l, op = .hand (.detach l) → Item.detach l ∉ past := by
+      intro l he hm
+      subst he
+      obtain ⟨p1, p2, hp⟩ := List.append_of_mem hm
+      have := hwf p1 l (p2 ++ Item.detach l :: handed ops) (by simp [hp, handed])
+      exact this (Item.detach l) (by simp) rfl
+    obtain ⟨h1, h2⟩ := step_fifo s op wire past hinv hsub hnew
+    have hwf' : DetachIsLast ((past ++ opItems op) ++ handed ops) := by
+      rw [List.append_assoc, ← handed_cons]; exact hwf
+    have ih := run_fifo ops (step s op).1 (wire ++ (step s op).2) (past ++ opItems op) h1 h2 hwf'
+    intro l
+    simp only [run]
+    rw [← List.append_assoc, handed_cons, ← List.append_assoc]
+    exact ih l
+
+/-- **what a link hands to the session leaves it in that order.**  For every history of transfers
+    and detaches handed over by any number of links and of window updates from the peer (a link
+    handing nothing over after its detach): per link, the frames written so far followed by the
+    frames still held are exactly the frames handed over, in order.  In particular a detach is
+    never written while a transfer of its link is still held, and a held transfer is written
+    before the detach that followed it. -/
+theorem per_link_fifo (w0 : Nat) (ops : List Op) (hwf : DetachIsLast (handed ops)) (l : Nat) :
+    ofLink l (run ⟨w0, []⟩ ops).2 ++ ofLink l (run ⟨w0, []⟩ ops).1.buf = ofLink l (handed ops) := by
+  have := run_fifo ops ⟨w0, []⟩ [] [] (by simp [ofLink]) (by simp) (by simpa using hwf) l
+  simpa using this
+
+/-- and once the window has room for everything held, nothing stays behind -/
+theorem window_flushes (s : St) (n : Nat) (h : s.buf.length ≤ n) (hn : 0 < n) :
+    (step s (.window n)).1.buf = [] := by
+  have key : ∀ (buf : List Item) (r : Nat), buf.length ≤ r → (drain r buf).2.1 = [] := by
+    intro buf
+    induction buf with
+    | nil => intro r _; rfl
+    | cons i rest ih =>
+      intro r hr
+      cases i with
+      | xfer l u =>
+        have : 0 < r := by simp at hr; omega
+        simp only [drain, this, if_true]
+        exact ih (r - 1) (by simp at hr; omega)
+      | detach l =>
+        simp only [drain]
+        exact ih r (by simp at hr; omega)
+  simp only [step]
+  by_cases hc : 0 < n ∧ (!s.buf.isEmpty) = true
+  · simp only [hc, and_self, if_true]; exact key s.buf n h
+  · simp only [hc, if_false]
+    have : s.buf.isEmpty = true := by
+      cases hb : s.buf.isEmpty with
+      | true => rfl
+      | false => exact absurd ⟨hn, by simp [hb]⟩ hc
+    show s.buf = []
+    simpa using this
+
+/-- the defect that was: with the detach written at once, a held pre-settled transfer is overtaken -/
+example : (run ⟨1, []⟩ [.hand (.xfer 0 1), .hand (.xfer 0 2), .hand (.detach 0), .window 5]).2 =
+    [.xfer 0 1, .xfer 0 2, .detach 0] := by decide
+
+end Amqp.DetachHold
